@@ -9,6 +9,10 @@ def vm(profile, qn, tn, extra=None):
     return {"kind": "vm", "profile": profile, "extra": extra or [],
             "quick": {"n": qn, "shards": 16}, "thorough": {"n": tn, "shards": 16}}
 
+# every module's property is also exercised across an export / import of the state (the export profile runs histories of all base
+# profiles; its findings are attributed to C20 and to the properties of the base profile's modules)
+EXPORT = chain("export", 48, 480, ops=100, tops=200)
+
 VM_ENGINES = [vm("ops", 16000, 320000), vm("structured", 16000, 320000), vm("raw", 16000, 320000), vm("calls", 16000, 320000), vm("create", 1600, 16000)]
 VM_ASSUME = ["outside the Lean interpreter model (cases reaching them are skipped by the comparison, monitors still run): CREATE/CREATE2, native/precompile addresses (<= 0xff), any use of an address destroyed earlier in the same transaction, call nesting deeper than 8",
              "DataStackMaxDepth = 0 and the 16 MiB memory provider, as x/cvm/keeper configures the VM"]
@@ -17,13 +21,13 @@ VM_TRUST = ["modelled, not verified: Go runtime (big.Int, slices, allocation lim
 
 SDK_TRUST = ["modelled, not verified: Cosmos SDK bank/auth/staking/distribution, baseapp transaction atomicity, IAVL, Tendermint"]
 
-GOV = {"engines": [chain("gov", 160, 1600, ops=100)], "trusted": SDK_TRUST + ["the staking module is an observed input of the tally (bonded validators, delegations, bonded total)"],
+GOV = {"engines": [chain("gov", 160, 1600, ops=100), EXPORT], "trusted": SDK_TRUST + ["the staking module is an observed input of the tally (bonded validators, delegations, bonded total)"],
        "assumptions": ["governance parameters are constant along a history", "shield-claim proposals are exercised by the shield checks"]}
 
 BANKVM = {"trusted": SDK_TRUST + ["contract behaviour at chain level is modelled for a fixed library of hand-assembled programs (harness/sim/gen_bankvm.go); arbitrary programs are covered by the VM engine"],
           "assumptions": ["SDK 0.42.4 does not persist vesting delegation tracking (DelegateCoins/trackDelegation omits SetAccount): observed, reproduced by the model, not part of the repository"]}
 
-SHIELD = {"engines": [chain("shield", 128, 1280, ops=160, tops=240)],
+SHIELD = {"engines": [chain("shield", 128, 1280, ops=160, tops=240), EXPORT],
           "trusted": SDK_TRUST + ["the staking module is an observed input: the bonded stake the staking hooks recompute for a provider is read from the observed post-state; unbonding delegations (their delay by claims and payouts taken from them) are not modelled",
                                   "governance's tally of a claim is validated by the C12 monitors; the shield model takes the observed outcome of a claim (paid / rejected / vetoed) as input"],
           "assumptions": ["shield and governance parameters are constant along a history", "three histories in four are drawn inside the module's stated design assumption (keeper/collateral.go): unbonding time >= withdraw period >= protection period >= claim lock (21 / 21 / 21 / 4 days by default); one in four outside it, where a claim that passes the vote may fail at payout (the proposal then fails and its lock is undone)",
@@ -51,7 +55,7 @@ PROPS = {
     },
     "C09": {
         "lean": ["Shentu.Props.C09"],
-        "engines": [chain("staking", 128, 1280, ops=150, tops=250), chain("shield", 128, 1280, ops=90, tops=160)],
+        "engines": [chain("staking", 128, 1280, ops=150, tops=250), chain("shield", 128, 1280, ops=90, tops=160), EXPORT],
         "trusted": ["modelled, not verified: the Cosmos SDK staking keeper (power index, unbonding queues, slashing), baseapp, Tendermint; the model is the specification of what consensus must see, compared on every block with the updates the real application returns from EndBlock",
                     "the consensus view is accumulated by the harness from the EndBlock responses, starting from the bonded validators of genesis"],
         "assumptions": ["consensus public keys are unique among validators (refused otherwise by the SDK)", "power reduction 10^6 (the default)", "a tie in power exactly at the last seat is not decided by the monitor (counted as sit.c09.tie_at_the_cut)",
@@ -89,11 +93,11 @@ PROPS = {
     },
     "C01": dict(BANKVM, lean=["Shentu.Props.C01", "Shentu.Props.C01s", "Shentu.Props.C01vm", "Shentu.Props.C01run"], drivers=["chaindriver", "vmdriver"],
                 engines=[chain("bankvm", 96, 960, ops=100), chain("gov", 48, 480, ops=100), chain("oracle", 48, 480), chain("shield", 32, 320, ops=120), chain("staking", 32, 320, ops=100),
-                         vm("calls", 16000, 160000)],
+                         vm("calls", 16000, 160000), EXPORT],
                 assumptions=BANKVM["assumptions"] + ["arbitrary contract programs (value calls, SELFDESTRUCT to any beneficiary, failing frames) are covered by the VM engine: the accounts of the interpreter's cache hold the same sum before and after every generated call tree; the write-back of that cache to the bank is covered by the chain engine's library programs"]),
     "C18": dict(BANKVM, lean=["Shentu.Props.C18", "Shentu.Props.C18vm"], drivers=["chaindriver", "vmdriver"],
-                engines=[chain("bankvm", 160, 1600, ops=100), vm("calls", 16000, 320000), vm("create", 1600, 16000)]),
-    "C19": dict(BANKVM, lean=["Shentu.Props.C19"], engines=[chain("bankvm", 160, 1600, ops=100), chain("payout", 48, 480, ops=120, tops=200)],
+                engines=[chain("bankvm", 160, 1600, ops=100), vm("calls", 16000, 320000), vm("create", 1600, 16000), EXPORT]),
+    "C19": dict(BANKVM, lean=["Shentu.Props.C19"], engines=[chain("bankvm", 160, 1600, ops=100), chain("payout", 48, 480, ops=120, tops=200), EXPORT],
                 assumptions=BANKVM["assumptions"] + ["the one path outside the bank and cvm modules that touches the lock — a shield claim paid out of the stake of an account with locked coins — is exercised by the engine 'payout' on providers turned into ManualVestingAccounts in a discarded cache context (an account with locked coins may delegate them and deposit collateral)"]),
     "C11": dict(GOV, lean=["Shentu.Props.C11"]),
     "C12": dict(GOV, lean=["Shentu.Props.C12"], engines=GOV["engines"] + [chain("shield", 48, 480, ops=160)],
@@ -101,14 +105,14 @@ PROPS = {
     "C13": dict(GOV, lean=["Shentu.Props.C13"]),
     "C15": {
         "lean": ["Shentu.Props.C15"],
-        "engines": [chain("oracle", 160, 1600)],
+        "engines": [chain("oracle", 160, 1600), EXPORT],
         "trusted": SDK_TRUST,
         "assumptions": ["block heights are consecutive", "the oracle parameters are constant along a history",
                         "bounty_bounded is proved at the level of the share arithmetic and the equality of the two formula copies; the threading of the shares through the operator records is covered by the correspondence check"],
     },
     "C14": {
         "lean": ["Shentu.Props.C14"],
-        "engines": [chain("oracle", 160, 1600)],
+        "engines": [chain("oracle", 160, 1600), EXPORT],
         "trusted": SDK_TRUST,
         "assumptions": ["block heights are consecutive", "the oracle parameters are constant along a history"],
     },
